@@ -198,8 +198,16 @@ Proof.
   apply Qcompare_inject_Z.
 Qed.
 
+Lemma int_exact_b n : int_exact n -> int_exactb n = true.
+Proof. intros [A B]. unfold int_exactb. rewrite A, B. reflexivity. Qed.
+
 Lemma conv_i64_exact n : int_exact n -> conv_i64 n = num_trunc n.
 Proof. intros [_ H]. unfold conv_i64. rewrite H. reflexivity. Qed.
+
+Lemma conv_field_int_exact b n : int_exact n -> conv_field b TInt (JNum n) = Ok (CInt (num_trunc n)).
+Proof.
+  intros H. simpl. rewrite (int_exact_b n H), (conv_i64_exact n H). simpl. rewrite andb_false_r. reflexivity.
+Qed.
 
 (* ---------- sat ---------- *)
 Lemma sat_ext c c' o : c = c' -> sat c o = sat c' o.
